@@ -984,7 +984,7 @@ func segmentsKernel(rel, fn, leanName, params string, sp Spec) func() string {
 func init() {
 	c := "trillian/ctfe/config.go"
 	register(genFile{name: "ConfigBodies", imports: []string{"CTV.Basic.I64", "CTV.Basic.ErrKind"}, units: []unit{
-		{"validateLogConfigChecks", segmentsKernel(c, "ValidateLogConfig", "validateLogConfigChecks",
+		{"validateLogConfigChecks", func() string { return segmentsKernel(c, "ValidateLogConfig", "validateLogConfigChecks",
 			"(logId_ : Int) (pubSet pubBad isMirror frozenSet privSet privBad rejectExpired rejectUnexpired ekuBad startSet startBad limitSet limitBad : Bool) (start_ limit_ max_ exp_ : Int) (verifierFails shapeFails sigFails : Bool) (storage_ connLen nParts : Int) (scheme_ : String) (dsnBad pgBad : Bool)",
 			Spec{Kind: "i64", Lazy: true, Canon: true, Inline: true, ParamNames: []string{"cfg"}, Ret: "errlastbool", Ignore: []string{"klog."},
 				IgnoreLHS: []string{"vCfg.PrivKey", "vCfg.KeyUsages", "vCfg.NotAfterStart", "*vCfg.NotAfterStart", "vCfg.NotAfterLimit", "*vCfg.NotAfterLimit",
@@ -1004,15 +1004,15 @@ func init() {
 					"_, err := mysql.ParseDSN(conn[1]) ; err != nil":                            "dsnBad",
 					"_, err := pgconn.ParseConfig(cfg.CtfeStorageConnectionString) ; err != nil": "pgBad"},
 				RangeAnyReturn: map[string]string{"cfg.ExtKeyUsages": "ekuBad"},
-				InitCondByCall: map[string]string{".ToSignedTreeHead": "shapeFails"},
-				ErrCalls: map[string]string{"cfg.PrivateKey.UnmarshalNew": "privBad", "ct.NewSignatureVerifier": "verifierFails", "…ToSignedTreeHead": "shapeFails"},
-				Repl: map[string]string{"cfg.LogId": "logId_", "cfg.IsMirror": "isMirror", "cfg.FrozenSth != nil": "frozenSet", "cfg.PrivateKey == nil": "(!privSet)", "cfg.PrivateKey != nil": "privSet",
+				InitCondByCall: map[string]string{".ToSignedTreeHead": "shapeFails", ".VerifySTHSignature": "sigFails", ".ParseDSN": "dsnBad", ".ParseConfig": "pgBad"},
+				ErrCalls: map[string]string{"cfg.PrivateKey.UnmarshalNew": "privBad", "ct.NewSignatureVerifier": "verifierFails", "(&ct.GetSTHResponse{": "shapeFails"},
+				Repl: withConsts(c, map[string]string{"cfg.LogId": "logId_", "cfg.IsMirror": "isMirror", "cfg.FrozenSth != nil": "frozenSet", "cfg.PrivateKey == nil": "(!privSet)", "cfg.PrivateKey != nil": "privSet",
 					"cfg.NotAfterStart != nil": "startSet", "cfg.NotAfterLimit != nil": "limitSet", "start != nil": "startSet", "limit != nil": "limitSet",
 					"(*vCfg.NotAfterLimit)": "limit_", "*vCfg.NotAfterLimit": "limit_", "(*vCfg.NotAfterStart)": "start_", "*vCfg.NotAfterStart": "start_",
 					"len(cfg.ExtKeyUsages) > 0": "true", "cfg.ExtraDataIssuanceChainStorageBackend": "storage_", "conn[0]": "scheme_",
 					"configpb.LogConfig_ISSUANCE_CHAIN_STORAGE_BACKEND_CTFE": "(1 : Int)", "configpb.LogConfig_ISSUANCE_CHAIN_STORAGE_BACKEND_TRILLIAN_GRPC": "(0 : Int)", "len(cfg.CtfeStorageConnectionString)": "connLen", "len(conn)": "nParts",
 					"cfg.RejectExpired": "rejectExpired", "cfg.RejectUnexpired": "rejectUnexpired",
-					"cfg.MaxMergeDelaySec": "max_", "cfg.ExpectedMergeDelaySec": "exp_"}})},
+					"cfg.MaxMergeDelaySec": "max_", "cfg.ExpectedMergeDelaySec": "exp_"})})() }},
 		// storage.NewIssuanceChainStorage: (0 no storage / 1 a storage, is-error) by backend value and connection-string prefix
 		{"newChainStorageBody", handlerKernel("trillian/ctfe/storage/storage.go", "NewIssuanceChainStorage", "newChainStorageBody",
 			"(backend_ : Int) (mysqlPrefix pgPrefix : Bool)", "Nat × Bool", "", "(0, false)",
